@@ -1,10 +1,17 @@
 package c14
 
-// e2e tier (oracle only): a real martian.Proxy whose request and response modifier is the real
-// httpspec stack, a raw TCP client, and a recording round tripper standing for the origin
-// (what it is handed is what would be sent upstream; how often it is called is the origin log).
+// e2e tier: a real martian.Proxy whose request and response modifier is the real httpspec stack, a
+// raw TCP client, and a recording round tripper standing for the origin (what it is handed is what
+// would be sent upstream; how often it is called is the origin log).
 //
 //	e2e <name> <boundary> <raw request header lines> <status> <scripted origin response header>
+//
+// Observation (compared with the model's `exchange`): how often the origin was contacted, the
+// error classes of the request side (from the proxy's Warning on the forwarded request) and of the
+// response side (Warning on the response), the client's status, the header the origin was handed and
+// the header the client got (the proxy's own Warning values and its own framing headers removed).
+// The model is handed what net/http parsed from the raw lines (the codec is trusted) and the
+// client address the proxy saw.
 
 import (
 	"bufio"
@@ -82,13 +89,13 @@ func (e *ex) doE2E(t []string) core.Result {
 		l.Close()
 		go p.Close() // may wait for the connection handler; never awaited
 	}()
-	conn, err := net.DialTimeout("tcp", l.Addr().String(), 3*time.Second)
+	conn, err := net.DialTimeout("tcp", l.Addr().String(), 10*time.Second)
 	if err != nil {
 		out.Impl = "e2e no-conn"
 		return out
 	}
 	defer conn.Close()
-	conn.SetDeadline(time.Now().Add(8 * time.Second))
+	conn.SetDeadline(time.Now().Add(12 * time.Second))
 	if _, err := io.WriteString(conn, raw); err != nil {
 		return core.Result{SkipModel: true, Impl: "e2e", Fail: "write to proxy: " + err.Error(), Sig: "c14:e2e-io"}
 	}
@@ -101,13 +108,37 @@ func (e *ex) doE2E(t []string) core.Result {
 	rt.mu.Lock()
 	calls, seen := rt.calls, rt.seen
 	rt.mu.Unlock()
+	remote := conn.LocalAddr().String()
 
+	// ---- the observation, and the line the model is asked about
+	reqCls, seenS := "-", "-"
+	if calls > 0 {
+		reqCls = "ok"
+		if mw := stripMartianWarnings(seen); len(mw) > 0 {
+			reqCls = errClass(fmt.Errorf("%s", strings.Join(mw, "\n")))
+		}
+		seenS = encHeader(seen)
+	}
+	resCls := "ok"
+	if mw := stripMartianWarnings(res.Header); len(mw) > 0 {
+		resCls = errClass(fmt.Errorf("%s", strings.Join(mw, "\n")))
+	}
+	got := cloneHeader(res.Header)
+	for _, k := range []string{"Connection", "Content-Length", "Transfer-Encoding"} { // the proxy's own framing of the response
+		delete(got, k)
+	}
+	out.SkipModel = false
+	out.Impl = fmt.Sprintf("e2e calls=%d req=%s status=%d res=%s seen=%s reshdr=%s", calls, reqCls, res.StatusCode, resCls, seenS, encHeader(got))
+	out.ModelOp = fmt.Sprintf("e2e %s %s %s %s %s %s %d %s %s", t[1], t[2], hx("http"), hx("origin.test"), hx(e2eURL), hx(remote), status, encHeader(before), t[5])
+	core.Count(fmt.Sprintf("e2e:calls=%d", calls))
+
+	// ---- the property oracle
 	tag := name + "-" + bd
 	mine := "1.1 " + tag
 	var fs []*fl
 	ls := listed(before)
 	if exotic(before["Connection"]) || !viaDecidable(before["Via"]) {
-		out.Impl = "e2e abstain"
+		core.Count("e2e:oracle-abstains")
 		return out
 	}
 	named := namesInstance(before["Via"], tag)
@@ -125,18 +156,13 @@ func (e *ex) doE2E(t []string) core.Result {
 		if calls != 1 {
 			fs = append(fs, &fl{"c14:e2e-not-forwarded", fmt.Sprintf("origin contacted %d times for a request without a loop (client got %d)", calls, res.StatusCode)})
 		} else {
-			cls := "ok"
-			if mw := stripMartianWarnings(seen); len(mw) > 0 {
-				cls = errClass(fmt.Errorf("%s", strings.Join(mw, "\n")))
-			}
-			rfs, _ := oracleStackReq(before, seen, tag, mine, "http", "origin.test", e2eURL, conn.LocalAddr().String(), cls, false)
+			rfs, _ := oracleStackReq(before, seen, tag, mine, "http", "origin.test", e2eURL, remote, reqCls, false)
 			fs = append(fs, rfs...)
 			if res.StatusCode != status {
 				fs = append(fs, &fl{"c14:status-changed", fmt.Sprintf("origin answered %d, client got %d", status, res.StatusCode)})
 			}
 			// the proxy's own framing of the response is not the stack's business
 			skip := map[string]bool{"connection": true, "content-length": true, "transfer-encoding": true}
-			stripMartianWarnings(res.Header)
 			fs = append(fs, oracleHop(resHdr, res.Header, skip)...)
 		}
 	}
@@ -173,11 +199,27 @@ func genE2E(r *core.Rand) []string {
 	e := genEnv(r)
 	clean := func(h http.Header) http.Header {
 		o := http.Header{}
-		for k, vs := range h {
+		ks := make([]string, 0, len(h))
+		for k := range h {
+			ks = append(ks, k)
+		}
+		sort.Strings(ks)
+		for _, k0 := range ks {
+			vs := h[k0]
+			// names as the wire parser on the other side will store them (the generator also writes
+			// other spellings into the map; on the wire they are the same field)
+			k := http.CanonicalHeaderKey(k0)
 			if k == "Content-Length" || k == "Transfer-Encoding" || k == "Trailer" || len(vs) == 0 {
 				continue
 			}
 			for _, v := range vs {
+				// what can travel in one header line: no CR/LF/VT/FF (the wire writer would replace them)
+				v = strings.Map(func(c rune) rune {
+					if c == '\r' || c == '\n' || c == '\v' || c == '\f' {
+						return ' '
+					}
+					return c
+				}, v)
 				o[k] = append(o[k], strings.Trim(v, " \t"))
 			}
 		}
@@ -189,10 +231,22 @@ func genE2E(r *core.Rand) []string {
 		keys = append(keys, k)
 	}
 	sort.Strings(keys)
+	// on the wire: field names in any letter case (the parser canonicalises them), values optionally
+	// folded over two lines (obs-fold: the parser joins the pieces with one space), optional white
+	// space around the value
 	var b strings.Builder
 	for _, k := range keys {
 		for _, v := range h[k] {
-			b.WriteString(k + ": " + v + "\r\n")
+			wk := k
+			if r.Chance(1, 3) {
+				wk = mangleCase(r, k)
+				core.Count("e2e:wire-name-case")
+			}
+			if i := strings.IndexAny(v, " "); i > 0 && i < len(v)-1 && r.Chance(1, 4) && strings.TrimLeft(v[i:], " \t") != "" {
+				v = v[:i] + r.Pick("\r\n ", "\r\n\t", "\r\n  ") + strings.TrimLeft(v[i:], " \t")
+				core.Count("e2e:obs-fold")
+			}
+			b.WriteString(wk + ":" + r.Pick(" ", " ", "", "\t", "  ") + v + r.Pick("", "", " ", "\t") + "\r\n")
 		}
 	}
 	rh := clean(genHeader(r, genOpts{name: e.name, boundary: e.boundary}))
